@@ -199,6 +199,61 @@ fn simplify_storm<F: Function + MathFunction + Clone + 'static>(name: &str) {
     println!("{name} storm: ok");
 }
 
+/// A storm on the smallest function that has two different simplifications:
+/// almost all of each thread's time is spent in the handle-level entry and
+/// exit of `simplify` (where shared per-tape state would be consulted), not in
+/// the simplification itself, so short windows there are hit by Miri's random
+/// preemption far more often than in `simplify_storm`.
+fn mini_storm<F: Function + MathFunction + Clone + 'static>(name: &str) {
+    let f: F = {
+        let mut ctx = Context::new();
+        let x = ctx.x();
+        let y = ctx.y();
+        let m = ctx.min(x, y).unwrap();
+        F::new(&ctx, &[m]).unwrap()
+    };
+    let mut ie = F::new_interval_eval();
+    let it = f.interval_tape(Default::default());
+    // box A: x < y everywhere; box B: y < x everywhere
+    let boxes = [[(0.0f32, 1.0f32), (2.0, 3.0)], [(2.0, 3.0), (0.0, 1.0)]];
+    let mut cases = vec![];
+    for b in boxes {
+        let v: Vec<Interval> =
+            b.iter().map(|(l, h)| Interval::new(*l, *h)).collect();
+        let (_o, tr) = ie.eval(&it, &v).unwrap();
+        let tr = tr.expect("decided").clone();
+        let p: Vec<Vec<f32>> = b.iter().map(|(l, _)| vec![*l]).collect();
+        let want = b[0].0.min(b[1].0).to_bits();
+        cases.push((tr, p, want));
+    }
+    let cases = Arc::new(cases);
+    let hs: Vec<_> = (0..4)
+        .map(|t| {
+            let f = f.clone();
+            let cases = cases.clone();
+            std::thread::spawn(move || {
+                let mut fe = F::new_float_slice_eval();
+                let mut ws = Default::default();
+                for r in 0..24 {
+                    let (tr, p, want) = &cases[(r + t) % 2];
+                    let c = f.simplify(tr, Default::default(), &mut ws).unwrap();
+                    let ct = c.float_slice_tape(Default::default());
+                    let o = fe.eval(&ct, p).unwrap();
+                    assert_eq!(
+                        o[0][0].to_bits(),
+                        *want,
+                        "thread {t} round {r}: simplify returned the child of another trace"
+                    );
+                }
+            })
+        })
+        .collect();
+    for h in hs {
+        h.join().unwrap();
+    }
+    println!("{name} mini storm: ok");
+}
+
 fn scenario<F: Function + MathFunction + Clone + 'static>(name: &str) {
     let f: F = build();
     let threads = 3;
@@ -374,9 +429,15 @@ fn main() {
         simplify_storm::<VmFunction>("vm255");
         return;
     }
+    if which == "mini" {
+        mini_storm::<VmFunction>("vm255");
+        return;
+    }
     if which != "rayon" {
         scenario::<VmFunction>("vm255");
         simplify_storm::<VmFunction>("vm255");
+        mini_storm::<VmFunction>("vm255");
+        mini_storm::<GenericVmFunction<3>>("vm3");
         scenario::<GenericVmFunction<3>>("vm3");
     }
     if which != "tapes" {
